@@ -34,7 +34,9 @@ func runC13(r *rt.Runner) {
 			if len(it.data) > r.N(6000, 40000) {
 				it.data = it.data[:r.N(6000, 40000)] // still a file: faults matter, content need not be valid
 			}
-			c.SetDetail(func() string { return fmt.Sprintf("%s (%s), %d bytes: %q", kind, it.desc, len(it.data), head(it.data, 2500)) })
+			c.SetDetail(func() string {
+				return fmt.Sprintf("%s (%s), %d bytes: %q", kind, it.desc, len(it.data), head(it.data, 2500))
+			})
 			full, fullErr := runEntry(env, kind, bytes.NewReader(it.data))
 			delivered, undelivered := 0, 0
 			for off := 0; off <= len(it.data); off++ {
@@ -100,7 +102,9 @@ func runC13(r *rt.Runner) {
 				}
 				c.Count("files swept over every prefix: " + kind)
 			}
-			c.Nontrivial(append([]byte(kind+"|"), it.data...), func() string { return fmt.Sprintf("%s, %d bytes, %d faults delivered", it.desc, len(it.data), delivered) })
+			c.Nontrivial(append([]byte(kind+"|"), it.data...), func() string {
+				return fmt.Sprintf("%s, %d bytes, %d faults delivered", it.desc, len(it.data), delivered)
+			})
 		})
 	}
 
